@@ -21,6 +21,8 @@ ERRS = [
     ("bad-index", "lda 0x10,q", 9, "scan"),
     ("unterminated-string", ".ascii 'abc", 7, "scan"),
     ("bad-size-indented", "    sta.z 0x10", 8, "scan"),
+    # an unterminated string that ends in a backslash, followed by a line that holds a quoted string
+    ("unterminated-string-backslash", ".ascii 'C:\\", 7, "scan"),
 ]
 
 
@@ -80,7 +82,7 @@ def run(ctx):
                 # insert only between complete statements: not inside a macro argument block `{ … }` spanning lines of an application
                 kind, stmt, col, how = rng.choice(ERRS)
                 where = rng.choice(["main", "main", "include"])
-                new = lines[:pos] + [stmt] + lines[pos:]
+                new = lines[:pos] + [stmt] + ([".ascii 'hello'"] if kind == "unterminated-string-backslash" or rng.random() < 0.1 else []) + lines[pos:]
                 if where == "main":
                     src = "\n".join(new) + "\n"
                     progs.append(dict(pr, src=src, meta=(kind, stmt, col, how, "main.s", pos, tuple(prefix[:1]))))
@@ -124,6 +126,39 @@ def run(ctx):
                 # lexical errors raised by an *earlier* line of the same kind are impossible in a valid base program
                 s.violate(inp, (fname, pos, col if how == "scan" else None, stmt), rep[1:], "reported file / line / column / quoted line differ from the erroneous statement")
         s.sample({"src": progs[0]["src"][:300], "meta": str(progs[0]["meta"])})
-        return [s]
+
+        # one Program object used for two sources: the second source's errors are located in the second source
+        s2 = core.Stream("S4-program-reuse", "a Program that has already assembled one source (of a different length and line structure) assembles a second, erroneous one: the report names the second source's file, line, column and line text")
+        from a816.program import Program
+        for i in range(24 if tier == "quick" else 240):
+            first = gen_program.generate(rng, run_.drv, rom="low_rom", features={"incbin": False, "usermap": False})["src"]
+            kind, stmt, col, how = rng.choice(ERRS)
+            pre = ["; c"] * rng.randrange(0, 9) + ["*=0x038000"] + ["nop"] * rng.randrange(0, 6)
+            second = "\n".join(pre + [stmt] + ([".ascii 'hello'"] if kind == "unterminated-string-backslash" else []) + ["rts"]) + "\n"
+            pos = len(pre)
+            res = {"status": "ok", "exc": None, "error": None}
+            try:
+                with impl.quiet(), core.watchdog(20):
+                    p = Program()
+                    p.assemble_string_with_emitter(first, "first.s", impl.CollectWriter())
+                    err = p.assemble_string_with_emitter(second, "second.s", impl.CollectWriter())
+                if err is not None:
+                    res = {"status": "rejected", "exc": None, "error": err}
+            except core.Timeout:
+                continue
+            except BaseException as e:  # noqa: BLE001
+                res = {"status": "rejected", "exc": type(e).__name__, "error": str(e)[:300]}
+            rep = real_report(res)
+            s2.cases += 1
+            s2.nontrivial.add((kind, pos))
+            s2.count(rep[0] if rep else "assembled")
+            inp = {"first": first[:400], "second": second, "inserted": stmt, "at_line": pos}
+            if rep is None:
+                s2.violate(inp, "an error located in second.s", "assembled", "the erroneous second source is assembled")
+            elif rep[0] != how:
+                s2.violate(inp, (how, "second.s", pos, stmt), rep, "the second source's error is reported as another kind of failure (or not located)")
+            elif rep[1] != "second.s" or rep[2] != pos or rep[4] != stmt or (how == "scan" and rep[3] != col):
+                s2.violate(inp, ("second.s", pos, col if how == "scan" else None, stmt), rep[1:], "reported file / line / column / quoted line differ from the erroneous statement of the second source")
+        return [s, s2]
     finally:
         run_.close()
